@@ -74,6 +74,7 @@ type AnnoOpts struct {
 	NoStop       bool // allow CDS features that do not end in a stop codon (partial CDS, polyprotein fragments)
 	DupNames     bool // allow two single-row CDS that share a gene name, and top-level GFF3 rows without an ID
 	ExactQueries int  // if > 0, the number of query sequences (FASTA form)
+	AmbigRef     bool // allow IUPAC codes inside coding regions of the reference where every expansion keeps the protein
 	CRLF         bool // allow annotation files with CRLF line ends
 	GenomeLen    int  // if > 0, the genome length to use (callers that want a long genome)
 	Rotate       bool // allow joins whose segments are not written in ascending order (a feature spanning the origin of a circular genome)
